@@ -59,7 +59,11 @@ func (v valueReader) Read(r io.Reader) ([]byte, error) {
 	if err != nil {
 		return nil, fmt.Errorf("read value: %s", err)
 	}
-	return append([]byte(sig), data...), err
+	var buf bytes.Buffer
+	if err = basic.WriteString(sig, &buf); err != nil {
+		return nil, fmt.Errorf("write signature: %s", err)
+	}
+	return append(buf.Bytes(), data...), nil
 }
 
 type varReader struct {
